@@ -5,6 +5,9 @@ from ..common import rng
 def scenarios(ctx):
     rnd = rng("C02")
     scs = nsplane.family_mapping(rnd, ctx.tier)
+    for i, sc in enumerate(scs):          # the progress setting must not matter: half of the family runs with --no-progress
+        if i % 2 == 1:
+            sc["extra"] = list(sc.get("extra", [])) + ["--no-progress"]
     scs += nsplane.family_random(rnd, 120 if ctx.tier == "quick" else 1500)
     return scs
 
